@@ -243,6 +243,8 @@ pub struct Global {
     pub faults_suspended: bool,
     pub pending_exit: i64,
     pub poison_note: String,
+    /// descriptors that were open before the simulation started (not the library's)
+    pub baseline_fds: Vec<bool>,
 }
 
 static mut GLOBAL: Option<Box<Global>> = None;
@@ -683,6 +685,7 @@ pub fn start(cfg: Config) {
         faults_suspended: false,
         pending_exit: 0,
         poison_note: String::new(),
+        baseline_fds: (0..4096).map(|fd| unsafe { raw6(libc::SYS_fcntl, fd, libc::F_GETFD as i64, 0, 0, 0, 0) } >= 0).collect(),
     });
     for p in gl.procs.iter_mut() {
         p.crash_at = u64::MAX;
@@ -876,6 +879,16 @@ fn do_crash() -> ! {
         }
     }
     crate::hist::log("crash.reaped", pid as i64, 0, 0, "");
+    // a descriptor created by a raw system call and not yet announced to the ledger (memfd_create
+    // is followed by the ftruncate that announces it) can only belong to the thread that just died
+    // between the two: it goes away with its process too
+    let gl = g();
+    for fd in 0..4096usize {
+        if !gl.fds[fd].open && !gl.baseline_fds[fd] && unsafe { raw6(libc::SYS_fcntl, fd as i64, libc::F_GETFD as i64, 0, 0, 0, 0) } >= 0 {
+            unsafe { raw6(libc::SYS_close, fd as i64, 0, 0, 0, 0, 0) };
+            trace(S_REAP, -1, 0, 0);
+        }
+    }
     let gl = g();
     gl.slots[my].st = St::Crashed;
     progress();
